@@ -52,6 +52,11 @@ CLAIMS = {
         technique='symbolic execution (CrossHair/z3) of Token operations, statement-argument parsers and the front end on symbolic text: every produced/raised token must satisfy source[pos:pos+len]==token',
         text='Inductive step per Token operation and bounded producer/front-end harnesses decided over all code points of each shape; line/column closed form; well-formed skeletons never rejected.',
         note='Trusted: CrossHair string/regex models + chsym plugin (Token.__new__ modelled). Error tokens produced by the Python parser for invalid expressions are outside (C boundary); cross-compile state outside.'),
+    'C12': dict(
+        engine='G', level='translation_validation', design_ref='DESIGN.md 4 C12',
+        technique='symbolic execution (CrossHair/z3) of compiled render functions with a symbolic failing evaluation point and exception class; oracle on exception type/args and parsed message records',
+        text='Per enumerated template the solver decides for every (failing point, exception class) that the raised exception keeps class/args, is a RenderError (or passes through unwrapped where required) and names the expected expression/line/column chain.',
+        note='Trusted: CrossHair models; expected positions computed from the template text by the harness. A private BaseException subclass stands for KeyboardInterrupt/SystemExit.'),
     'C03': dict(
         engine='X+Z', level='model_checking', design_ref='DESIGN.md 4 C03',
         technique='symbolic execution (CrossHair/z3) of iter_xml/match_tag/emitters on shape-enumerated character-symbolic strings; z3 regex inclusion from the live lexer pattern',
